@@ -47,7 +47,14 @@ pub fn c02(o: &mut O, tier: &str, rng: &mut Rng, prop: u8) {
         if plan.fold && plan.form {
             plan.method = "POST".to_string();
         }
-        let b = build(&plan, &sp, rng, off);
+        let mut b = build(&plan, &sp, rng, off);
+        // how the request object reaches the library is not part of the signature: protocol version, body
+        // container, absolute-form request target (all must come back unchanged when nothing is folded)
+        b.wire.version = *rng.pick(&[2u8, 2, 2, 1, 3, 4, 0][..]);
+        b.wire.body_kind = if b.wire.body.is_empty() { rng.below(3) as u8 } else { rng.below(2) as u8 };
+        if rng.chance(1, 8) && b.wire.uri.starts_with('/') {
+            b.wire.uri = format!("{}://example.amazonaws.com{}", if rng.chance(1, 2) { "http" } else { "https" }, b.wire.uri);
+        }
         let mut cfg = b.cfg.clone();
         // requirement sets that the signed list satisfies
         if rng.chance(1, 3) {
@@ -126,7 +133,10 @@ fn corpus(o: &mut O, rng: &mut Rng, prop: u8, accept: &Expect) {
     p.body_query = vec![(b"a".to_vec(), b"2".to_vec())];
     let b = build(&p, &canon, rng, 0);
     emit(o, prop, &b.wire, &b.cfg, &b.prov, accept, "c02,corpus,D5,fold");
-    // D1 (open finding): a literal '+' in a path segment
+    // D1 (open finding): a literal '+' in a path segment (only where the driver knows the class: C01 / C02)
+    if prop != 2 {
+        return;
+    }
     let mut p = base_plan();
     p.segments = vec![b"a+b".to_vec()];
     let mut b = build(&p, &canon, rng, 0);
@@ -137,7 +147,7 @@ fn corpus(o: &mut O, rng: &mut Rng, prop: u8, accept: &Expect) {
 /// C01: the unmutated request is accepted, every single-component mutation is refused.
 pub fn c01(o: &mut O, tier: &str, rng: &mut Rng) {
     let n = match tier {
-        "quick" => 10,
+        "quick" => 8,
         "thorough" => 200,
         _ => 120,
     };
@@ -165,6 +175,20 @@ pub fn c01(o: &mut O, tier: &str, rng: &mut Rng) {
                 plan.body = b"payload bytes".to_vec();
             }
         }
+        if i % 4 == 1 {
+            // the client also states the payload hash (truthfully) in a signed header: the hash that
+            // counts is still the one of the body as received
+            plan.headers.retain(|h| h.0 != "x-amz-content-sha256");
+            plan.headers.push(("x-amz-content-sha256".to_string(), hex::encode(signer::sha256(&wire_body(&plan))).into_bytes()));
+            if !plan.signed.contains(&"x-amz-content-sha256".to_string()) {
+                plan.signed.push("x-amz-content-sha256".to_string());
+            }
+            if !plan.form && plan.body.is_empty() {
+                plan.body = b"stated payload".to_vec();
+                plan.headers.retain(|h| h.0 != "content-length" && h.0 != "content-md5" && h.0 != "x-amz-content-sha256");
+                plan.headers.push(("x-amz-content-sha256".to_string(), hex::encode(signer::sha256(b"stated payload")).into_bytes()));
+            }
+        }
         let sp = Spelling::canonical();
         let b = build(&plan, &sp, rng, 0);
         let carrier = if plan.query_carrier { "query_carrier" } else { "header_carrier" };
@@ -190,7 +214,7 @@ pub fn c01(o: &mut O, tier: &str, rng: &mut Rng) {
         };
         // --- signature mutations: every hex digit -> another digit of the same class and the
         // other letter case; truncations, extensions, empty
-        let positions: Vec<usize> = if tier == "quick" && i % 4 != 0 { vec![0, 1, 31, 32, 62, 63, rng.below(64) as usize] } else { (0..64).collect() };
+        let positions: Vec<usize> = if tier == "quick" && i != 0 { vec![0, 1, 31, 32, 62, 63, rng.below(64) as usize] } else { (0..64).collect() };
         for pos in positions {
             let c = sig.as_bytes()[pos];
             let other = if c.is_ascii_digit() { if c == b'9' { b'0' } else { c + 1 } } else if c == b'f' { b'a' } else { c + 1 };
@@ -255,6 +279,102 @@ pub fn c01(o: &mut O, tier: &str, rng: &mut Rng) {
                 mutants.push(("query_name".to_string(), w, b.cfg.clone(), b.prov.clone()));
             }
         }
+        // --- query: an added parameter whose name is a letter-case variant / near miss of an
+        // authentication parameter name is an ordinary parameter: it is covered, so it breaks the signature
+        {
+            let add = |w: &Wire, piece: &str| -> Wire {
+                let mut w = w.clone();
+                w.uri = if w.uri.contains('?') { format!("{}&{}", w.uri, piece) } else { format!("{}?{}", w.uri, piece) };
+                w
+            };
+            let front = |w: &Wire, piece: &str| -> Wire {
+                let mut w = w.clone();
+                w.uri = match w.uri.split_once('?') {
+                    Some((p, q)) => format!("{}?{}&{}", p, piece, q),
+                    None => format!("{}?{}", w.uri, piece),
+                };
+                w
+            };
+            let quick = tier == "quick";
+            let full = if quick { i == 0 } else { i % 4 == 0 };
+            for name in ["X-Amz-Signature", "X-Amz-Algorithm", "X-Amz-Credential", "X-Amz-Date", "X-Amz-SignedHeaders", "X-Amz-Security-Token"] {
+                let mut variants: Vec<String> = if full || name == "X-Amz-Signature" { vec![name.to_ascii_lowercase(), name.to_ascii_uppercase()] } else { vec![name.to_ascii_lowercase()] };
+                if full || (name == "X-Amz-Signature" && i % 2 == 1) {
+                    let flip = |k: usize| -> String {
+                        name.char_indices().map(|(j, c)| if j == k { if c.is_ascii_uppercase() { c.to_ascii_lowercase() } else { c.to_ascii_uppercase() } } else { c }).collect()
+                    };
+                    variants.push(flip(0));
+                    variants.push(flip(name.len() - 1));
+                    variants.push(flip(name.rfind('-').unwrap() + 1));
+                    variants.push(format!("{}2", name));
+                    variants.push(name[..name.len() - 1].to_string());
+                    variants.push(format!("{}%20", name));
+                    variants.push(format!("+{}", name));
+                    variants.push(format!("{}%00", name));
+                    variants.push(name.replace('-', "_"));
+                }
+                for (k, v) in variants.iter().enumerate() {
+                    let value = if name == "X-Amz-Signature" { sig.clone() } else { "injected".to_string() };
+                    mutants.push(("query_add_auth_name_variant".to_string(), add(&b.wire, &format!("{}={}", v, value)), b.cfg.clone(), b.prov.clone()));
+                    if (full && (!quick || name == "X-Amz-Signature" || k == 0)) || (k == 0 && name == "X-Amz-Signature") {
+                        mutants.push(("query_add_auth_name_variant_front".to_string(), front(&b.wire, &format!("{}={}", v, if k % 2 == 0 { "" } else { "0" })), b.cfg.clone(), b.prov.clone()));
+                    }
+                }
+                // the exact name once more (except the signature, which no canonical query lists): covered as well
+                if name != "X-Amz-Signature" && (full || i % 2 == 1) {
+                    mutants.push(("query_add_auth_name_again".to_string(), add(&b.wire, &format!("{}=injected", name)), b.cfg.clone(), b.prov.clone()));
+                }
+            }
+            // a parameter of the request once more (multiset, not set), an empty-named one, a bare '=' piece
+            for (pi, piece) in ["k=v", "k2=", "k2", "=", "=x", "%20=", "+"].iter().enumerate() {
+                if quick && !full && (pi + i) % 2 == 0 {
+                    continue;
+                }
+                if b.wire.uri.contains("k=v") || !piece.starts_with('k') {
+                    mutants.push(("query_add_piece".to_string(), add(&b.wire, piece), b.cfg.clone(), b.prov.clone()));
+                }
+            }
+            if plan.query_carrier {
+                // blanks around the presented signature are part of it
+                for s2 in [format!("{}%20", sig), format!("+{}", sig), format!("{}%0A", sig), format!("{}%00", sig), format!("%09{}", sig)] {
+                    mutants.push(("sig_blank_padded".to_string(), replace_sig(&b.wire, &s2), b.cfg.clone(), b.prov.clone()));
+                }
+            }
+        }
+        // --- method in another letter case; the path with / without a trailing slash
+        {
+            let mut w = b.wire.clone();
+            w.method = w.method.to_ascii_lowercase();
+            mutants.push(("method_case".to_string(), w, b.cfg.clone(), b.prov.clone()));
+            let (path, rest) = match b.wire.uri.split_once('?') {
+                Some((p, q)) => (p.to_string(), format!("?{}", q)),
+                None => (b.wire.uri.clone(), String::new()),
+            };
+            if path != "/" {
+                let mut w = b.wire.clone();
+                let np = if path.ends_with('/') { path[..path.len() - 1].to_string() } else { format!("{}/", path) };
+                if !(plan.s3 && np.is_empty()) && !np.is_empty() {
+                    w.uri = format!("{}{}", np, rest);
+                    mutants.push(("path_trailing_slash".to_string(), w, b.cfg.clone(), b.prov.clone()));
+                }
+            }
+        }
+        // --- the timestamp respelled (same instant, other text): the text is covered on both carriers
+        if plan.date_text.is_none() && !plan.use_date_header {
+            let od = signer::compact_utc(plan.t);
+            let nd = format!("{}-{}-{}T{}:{}:{}Z", &od[..4], &od[4..6], &od[6..8], &od[9..11], &od[11..13], &od[13..15]);
+            let mut w = b.wire.clone();
+            if plan.query_carrier {
+                w.uri = w.uri.replace(&format!("X-Amz-Date={}", od), &format!("X-Amz-Date={}", nd.replace(':', "%3A")));
+            } else {
+                for (n, v) in w.headers.iter_mut() {
+                    if n.eq_ignore_ascii_case(b"x-amz-date") {
+                        *v = nd.as_bytes().to_vec();
+                    }
+                }
+            }
+            mutants.push(("timestamp_respelled".to_string(), w, b.cfg.clone(), b.prov.clone()));
+        }
         // --- a signed header value byte; a signed header's multiplicity and value order
         {
             for (hi, (n, _)) in b.wire.headers.iter().enumerate() {
@@ -280,6 +400,34 @@ pub fn c01(o: &mut O, tier: &str, rng: &mut Rng) {
                 let mut pv = b.prov.clone();
                 let _ = &mut pv;
                 mutants.push((format!("signed_header_dup"), w, b.cfg.clone(), pv));
+                if ln != "x-amz-security-token" && (tier != "quick" || i % 2 == 0 || ln.starts_with("x-amz-meta")) {
+                    // an empty / blank instance of the same name before the first and after the last one
+                    let first = b.wire.headers.iter().position(|h| h.0.eq_ignore_ascii_case(n)).unwrap();
+                    if first == hi {
+                        for (vi, val) in [&b""[..], &b"  "[..]].iter().enumerate() {
+                            let mut w = b.wire.clone();
+                            w.headers.insert(first, (n.clone(), val.to_vec()));
+                            mutants.push((format!("signed_header_empty_instance_first"), w, b.cfg.clone(), b.prov.clone()));
+                            if tier != "quick" || vi == (hi + i) % 2 {
+                                let mut w = b.wire.clone();
+                                w.headers.push((n.to_ascii_uppercase(), val.to_vec()));
+                                mutants.push((format!("signed_header_empty_instance_last"), w, b.cfg.clone(), b.prov.clone()));
+                            }
+                        }
+                    }
+                    // the value in another letter case, with a tab for a space, without its last byte
+                    let v0 = b.wire.headers[hi].1.clone();
+                    for (vi, v2) in [v0.to_ascii_uppercase(), v0.to_ascii_lowercase(), v0.iter().map(|c| if *c == b' ' { b'\t' } else { *c }).collect::<Vec<u8>>(), v0[..v0.len().saturating_sub(1)].to_vec()].into_iter().enumerate() {
+                        if tier == "quick" && (vi + hi + i) % 2 == 0 {
+                            continue;
+                        }
+                        if signer::trimall(&v2) != signer::trimall(&v0) {
+                            let mut w = b.wire.clone();
+                            w.headers[hi].1 = v2;
+                            mutants.push((format!("signed_header_value_variant"), w, b.cfg.clone(), b.prov.clone()));
+                        }
+                    }
+                }
             }
             // swap two values of one signed name
             let mut by_name: HashMap<Vec<u8>, Vec<usize>> = HashMap::new();
@@ -310,6 +458,22 @@ pub fn c01(o: &mut O, tier: &str, rng: &mut Rng) {
                 w.body[k] ^= 1;
             }
             mutants.push(("body_byte".to_string(), w, b.cfg.clone(), b.prov.clone()));
+            for (ti, tail) in [&b"\n"[..], &b" "[..], &b"\0"[..], &b"\r\n"[..]].iter().enumerate() {
+                if tier == "quick" && (ti + i) % 2 == 0 {
+                    continue;
+                }
+                let mut w = b.wire.clone();
+                w.body.extend(*tail);
+                mutants.push(("body_tail".to_string(), w, b.cfg.clone(), b.prov.clone()));
+            }
+            if !b.wire.body.is_empty() {
+                let mut w = b.wire.clone();
+                w.body.pop();
+                mutants.push(("body_truncated".to_string(), w, b.cfg.clone(), b.prov.clone()));
+                let mut w = b.wire.clone();
+                w.body.clear();
+                mutants.push(("body_emptied".to_string(), w, b.cfg.clone(), b.prov.clone()));
+            }
         } else {
             let mut w = b.wire.clone();
             w.body.extend(b"&zz=1");
@@ -381,6 +545,37 @@ pub fn c01(o: &mut O, tier: &str, rng: &mut Rng) {
             }
             pv.table[0].2 = s;
             mutants.push(("key".to_string(), b.wire.clone(), b.cfg.clone(), pv));
+        }
+        // --- the signed-header list written differently (blank after ';', upper case, reversed, an entry twice):
+        // whether the list is taken literally or normalised is left to the correspondence with the model
+        {
+            let list = b.signed.signed_headers.clone();
+            let names: Vec<&str> = list.split(';').collect();
+            let mut rev = names.clone();
+            rev.reverse();
+            let mut twice = names.clone();
+            twice.push(names[0]);
+            let enc = |s: &str| -> String { String::from_utf8(signer::uri_encode(s.as_bytes())).unwrap() };
+            let x = Expect {
+                accept: false,
+                refuse: false,
+                kind: None,
+                max_calls: Some(1),
+                ts: None,
+            };
+            for (vi, nl) in [list.replace(';', "; "), list.to_ascii_uppercase(), rev.join(";"), twice.join(";"), format!("{};", list), format!(";{}", list), list.replace(';', ";;"), list.replace(';', ",")].iter().enumerate() {
+                if *nl == list || (tier == "quick" && (vi + i) % 2 == 0) {
+                    continue;
+                }
+                let mut w = b.wire.clone();
+                w.uri = w.uri.replace(&format!("X-Amz-SignedHeaders={}", enc(&list)), &format!("X-Amz-SignedHeaders={}", enc(nl)));
+                for (n, v) in w.headers.iter_mut() {
+                    if n.eq_ignore_ascii_case(b"authorization") {
+                        *v = String::from_utf8(v.clone()).unwrap().replace(&format!("SignedHeaders={}", list), &format!("SignedHeaders={}", nl)).into_bytes();
+                    }
+                }
+                emit(o, 1, &w, &b.cfg, &b.prov, &x, &format!("c01,signed_list_respelled,{}", carrier));
+            }
         }
         // --- options flipped on the same bytes
         {
